@@ -85,6 +85,12 @@ func scriptedWorkloads(tier string, seed int64) []WLSpec {
 			// W8 a process that dies without Sync/Close, a second one that only syncs or closes
 			mk("W8-die-reopen-sync", o, pub(3), pub(2), WLStep{Kind: "die"}, WLStep{Kind: "open", Opts: &o}, WLStep{Kind: "sync"}, pub(1), WLStep{Kind: "sync"})
 			mk("W8-die-reopen-close", o, pub(2), pub(3), pub(3), WLStep{Kind: "die"}, WLStep{Kind: "open", Opts: &o}, WLStep{Kind: "close"}, WLStep{Kind: "open", Opts: &o}, pub(2))
+			// W8c: the writer dies without Sync/Close, a READ-ONLY handle then calls Sync ("returns the
+			// nextOffset at the time of the Sync, so clients can determine what portion of the log is now
+			// durable")
+			oro := o
+			oro.Readonly, oro.Create = true, false
+			mk("W8-die-readonly-sync", o, pub(3), pub(2), WLStep{Kind: "die"}, WLStep{Kind: "open", Opts: &oro}, WLStep{Kind: "sync"}, WLStep{Kind: "close"}, WLStep{Kind: "open", Opts: &o}, pub(1))
 			// W7 reopen with Recover/Check on clean state + KeepRewriteVersion deletes
 			orr := o
 			orr.Recover, orr.KeepVer = true, true
@@ -475,11 +481,11 @@ func fileClass(name string, headBase int64) (cls string, base int64) {
 		} else {
 			cls += ":reader"
 		}
-	case strings.HasPrefix(m[3], ".rewrite.") && !strings.HasSuffix(m[3], ".tmp"):
+	case strings.HasPrefix(m[3], ".rewrite.") && !strings.Contains(m[3], ".tmp"):
 		cls = "rewrite-" + m[2]
-	case m[3] == ".tmp":
-		cls = m[2] + "-tmp"
-	case strings.HasPrefix(m[3], ".rewrite.") && strings.HasSuffix(m[3], ".tmp"):
+	case m[3] == ".tmp" || strings.HasPrefix(m[3], ".tmp."):
+		cls = m[2] + "-tmp" // the temp file of index.Write (uniquely named since the repair of D23)
+	case strings.HasPrefix(m[3], ".rewrite.") && strings.Contains(m[3], ".tmp"):
 		cls = "rewrite-" + m[2] + "-tmp"
 	case m[3] == ".recover":
 		cls = "recover-tmp"
